@@ -18,18 +18,31 @@ Proof.
   f_equal; [|f_equal; [|f_equal; [|f_equal]]]; lia.
 Qed.
 
-Lemma len64_impl_ok (k r : nat) : (r < 64)%nat ->
-  len64_impl (N.of_nat k mod 2^64) r = len64_spec (N.of_nat (k * 64 + r)).
+Lemma len64_impl_okN (K : N) (r : nat) : (r < 64)%nat ->
+  len64_impl (K mod 2^64) r = len64_spec (K * 64 + N.of_nat r).
 Proof.
   intros Hr. unfold len64_impl, len64_spec, be64.
   rewrite w64_mod, !N.shiftr_div_pow2, !N.shiftl_mul_pow2.
-  set (K := N.of_nat k). set (R := N.of_nat r).
-  replace (N.of_nat (k * 64 + r)) with (K * 64 + R) by lia.
-  assert (HR : R < 64) by lia. clearbody K R.
+  set (R := N.of_nat r).
+  assert (HR : R < 64) by lia. clearbody R.
   change (2^64) with 18446744073709551616.
   change (2^23) with 8388608. change (2^32) with 4294967296.
   change (2^9) with 512. change (2^3) with 8.
   f_equal; apply be32_mod; change (2^32) with 4294967296; lia.
+Qed.
+
+Lemma len64_impl_ok (k r : nat) : (r < 64)%nat ->
+  len64_impl (N.of_nat k mod 2^64) r = len64_spec (N.of_nat (k * 64 + r)).
+Proof.
+  intros Hr. rewrite len64_impl_okN by exact Hr. f_equal. lia.
+Qed.
+
+(* the form MD.v asks for, with [n0] blocks absorbed before the run *)
+Lemma len64_md (n0 : N) (k r : nat) : (r < 64)%nat ->
+  len64_impl ((n0 + N.of_nat k) mod 2^64) r
+  = len64_spec (n0 * N.of_nat 64 + N.of_nat (k * 64 + r)).
+Proof.
+  intros Hr. rewrite len64_impl_okN by exact Hr. f_equal. lia.
 Qed.
 
 Lemma len64_spec_length n : length (len64_spec n) = 8%nat.
@@ -40,7 +53,7 @@ Theorem sm3_stream chunks :
 Proof.
   apply md_stream with (Lok := fun _ => True);
     [lia | lia | apply len64_spec_length
-    | intros k r Hr _; apply len64_impl_ok; exact Hr | exact I].
+    | intros k r Hr _; apply len64_md; exact Hr | exact I].
 Qed.
 
 Theorem sm3_oneshot_eq m : sm3_oneshot m = sm3 m.
